@@ -25,7 +25,7 @@ def validated_before_apply(ctx, p):
         return
     vm = lib.prune_bool_param(el, 2, True)
     ctx.ob(p + 'a validation-mode-anchored', 'anchor', el.path, 'enact_logs branches on its validation_mode parameter', len(vm) >= 2, '%d switches on the parameter' % len(vm))
-    ap = lib.sites_reaching(el, APPLIERS, lift=False)
+    ap = lib.sites_reaching(el, APPLIERS, lift=False) or lib.sites_reaching(el, APPLIERS)     # direct, or the call of a helper that applies
     rs = el.call_sites("log::LogReader::<'a>::reset")
     lib.precedes(ctx, p + 'b whole-record-validated-before-apply', el, rs, ap,
                  'in replay (validation_mode) every applier call is preceded by LogReader::reset, which is reached only after the validation loop saw EndRecord',
